@@ -115,6 +115,14 @@ impl Signature {
     pub fn from_compact_impl(compact_bytes: &[u8]) -> Result<Signature, BSVErrors> {
         // 27-30: P2PKH uncompressed
         // 31-34: P2PKH compressed
+        if compact_bytes.len() != 65 {
+            return Err(BSVErrors::SignatureError("Compact signature must be exactly 65 bytes long."));
+        }
+
+        if !(27..=34).contains(&compact_bytes[0]) {
+            return Err(BSVErrors::SignatureError("Compact signature header byte must be between 27 and 34."));
+        }
+
         let (recovery, is_compressed) = match (compact_bytes[0] - 27) as i8 - 4 {
             x if x < 0 => (x + 4, false),
             x => (x, true),
